@@ -420,8 +420,25 @@ def pool_size_use(rep, prog, rule):
         root = root or f
         splits = [c for c in root.calls() if c.method and c.method.startswith("split_by_")]
         key = "%s|%s" % (root.name, qs[0].name.rsplit("::", 1)[-1])
+        def only_splitters(g, depth=0):
+            cs = prog.callers().get(g.id, [])
+            if not cs or depth > 2:
+                return False
+            for c in cs:
+                r = c.fn
+                while r is not None and r.kind == "closure":
+                    r = prog.fns.get(r.d.get("parent"))
+                if r is None:
+                    return False
+                if any(x.method and x.method.startswith("split_by_") for x in r.calls()):
+                    continue
+                if not only_splitters(r, depth + 1):
+                    return False
+            return True
         if splits:
             rep.ok(rule, key, qs[0].at, "read by a band splitter (%d split calls)" % len(splits))
+        elif only_splitters(root):
+            rep.ok(rule, key, qs[0].at, "a helper that only band splitters call")
         else:
             rep.bad(rule, key + "|not-a-splitter", qs[0].at,
                     "%s reads the size of the thread pool but splits nothing: whatever it decides "
